@@ -438,4 +438,49 @@ theorem repo_not_correct_cmp_out_of_range :
 theorem repo_nil_ptr_panics : (stringsGet LibCfg.repo false .nilPtr exS [seg "0"] == .panic) = true := by decide
 end NonVacuity
 
+/-! ### The tree as it is now
+
+After the three `fix:` commits in strings.go the switches of this inspector that remain on in `LibCfg.repo`
+only concern a typed-nil `*[]string` / `*[][]byte` argument (finding `strings-nil-ptr-panics`, C02). For every
+other argument form the model of the *current* tree is the repaired model, so the theorems above are
+statements about the code as it stands. -/
+section CurrentTree
+
+theorem spOf_repo (f : Form) (hf : f ≠ .nilPtr) : spOf LibCfg.repo f = spOf LibCfg.fixed f := by
+  cases f <;> first | rfl | exact absurd rfl hf
+
+theorem get_current (isB : Bool) (f : Form) (v : Val) (p : List Seg) (hf : f ≠ .nilPtr) :
+    getAcc isB f v p (stringsGet LibCfg.repo isB f v p) = true := by
+  have h : stringsGet LibCfg.repo isB f v p = stringsGet LibCfg.fixed isB f v p := by
+    unfold stringsGet; rw [spOf_repo f hf]
+  rw [h]; exact get_correct isB f v p
+
+theorem cmp_current (f : Form) (v : Val) (p : List Seg) (op : Op) (right : Seg) (hf : f ≠ .nilPtr) :
+    cmpAcc f v p op right (stringsCmp LibCfg.repo f v p op right) = true := by
+  have h : stringsCmp LibCfg.repo f v p op right = stringsCmp LibCfg.fixed f v p op right := by
+    unfold stringsCmp; rw [spOf_repo f hf]; rfl
+  rw [h]; exact cmp_correct f v p op right
+
+theorem lc_current (isCap isB : Bool) (f : Form) (v : Val) (p : List Seg) (hf : f ≠ .nilPtr) :
+    lcAcc isCap isB f v p (stringsLc LibCfg.repo isCap isB f v p) = true := by
+  have h : stringsLc LibCfg.repo isCap isB f v p = stringsLc LibCfg.fixed isCap isB f v p := by
+    unfold stringsLc; rw [spOf_repo f hf]
+  rw [h]; exact lc_correct isCap isB f v p
+
+theorem set_current (isB : Bool) (f : Form) (v : Val) (p : List Seg) (src : Src) (hf : f ≠ .nilPtr) :
+    setAcc isB f v p src (stringsSet LibCfg.repo isB f v p src) = true := by
+  have h : stringsSet LibCfg.repo isB f v p src = stringsSet LibCfg.fixed isB f v p src := by
+    unfold stringsSet; rw [spOf_repo f hf]; rfl
+  rw [h]; exact set_correct isB f v p src
+
+theorem deq_current (fl fr : Form) (a b : Val) (hl : fl ≠ .nilPtr) (hr : fr ≠ .nilPtr) :
+    deqAcc fl fr a b (stringsDeq LibCfg.repo fl fr a b, stringsDeq LibCfg.repo fr fl b a) = true := by
+  have h1 : stringsDeq LibCfg.repo fl fr a b = stringsDeq LibCfg.fixed fl fr a b := by
+    unfold stringsDeq; rw [spOf_repo fl hl, spOf_repo fr hr]; rfl
+  have h2 : stringsDeq LibCfg.repo fr fl b a = stringsDeq LibCfg.fixed fr fl b a := by
+    unfold stringsDeq; rw [spOf_repo fl hl, spOf_repo fr hr]; rfl
+  rw [h1, h2]; exact deq_correct fl fr a b
+
+end CurrentTree
+
 end Inspector.C17
